@@ -78,7 +78,10 @@ fn input(rng: &mut Rng) -> Vec<u8> {
         if rng.chance(1, 12) {
             // a long line: around every power-of-two buffer size, ASCII or multi-byte (a character may
             // straddle the boundary), up to well beyond BufReader's 8 KiB buffer
-            let len = *rng.pick(&[255usize, 256, 1023, 1024, 4095, 4096, 4097, 8191, 8192, 8193, 10_000, 65_537]);
+            let len = *rng.pick(&[
+                255usize, 256, 257, 511, 512, 513, 1023, 1024, 1025, 2047, 2048, 2049, 4095, 4096, 4097, 8191, 8192, 8193, 10_000,
+                16_383, 16_384, 16_385, 32_768, 65_535, 65_536, 65_537,
+            ]);
             let unit = *rng.pick(&["x", "long ", "é", "日", "🎸"]);
             let mut line = String::new();
             if rng.coin() {
